@@ -333,6 +333,28 @@ func c11(c *Ctx) {
 			if len(compositeLitsOf(gi, gate.Body(), pathRobust, "Message")) > 0 {
 				bad = "builds a robust.Message"
 			}
+			// … and the only thing it asks the IRC server for is the stored secret (closed list: GetAuth). Any other method
+			// of the server, of the output stream or of the stores may change state on behalf of an unauthenticated request
+			for _, call := range astx.Calls(gate.Body(), true) {
+				fn := astx.Callee(gi, call)
+				if fn == nil {
+					continue
+				}
+				sig, _ := fn.Type().(*types.Signature)
+				if sig == nil || sig.Recv() == nil {
+					continue
+				}
+				rt := sig.Recv().Type()
+				if p, ok := rt.(*types.Pointer); ok {
+					rt = p.Elem()
+				}
+				if astx.IsNamed(rt, pathIrcsrv, "IRCServer") && fname(fn) != "GetAuth" {
+					bad = "calls IRCServer." + fname(fn)
+				}
+				if astx.IsNamed(rt, pathOutput, "OutputStream") || astx.IsNamed(rt, pathStore, "LevelDBStore") {
+					bad = "calls " + astx.Str(call.Fun)
+				}
+			}
 			r.Check(bad == "", "C11.H1", gate.Name(), "the gate has no effect on state", c.P.Pos(gate.Node().Pos()), "no proposal, no robust.Message built",
 				"the authentication gate itself proposes an entry ("+bad+"), i.e. a request that was not (yet) authenticated changes replicated state — e.g. deleting a session after a number of wrong secrets lets anybody delete any session")
 		}
@@ -596,6 +618,39 @@ func c11(c *Ctx) {
 			r.Check(okPass, "C11.H4", priv.Name(), "private routes only with the network password", pos, "password compared equal to api.networkPassword", "private routes are reachable without the password having been compared equal to the network password")
 		}
 		r.Check(n == 1, "C11.H4", priv.Name(), "one guarded hand-off", c.P.Pos(priv.Node().Pos()), "found", "DispatchPrivate does not hand off to DispatchPrivateWithoutAuth exactly once")
+		// H4b: before the hand-off nothing is served: the response writer goes to http.Error, to its own Header() and to
+		// DispatchPrivateWithoutAuth only
+		{
+			var wParam types.Object
+			for _, fld := range priv.FuncType().Params.List {
+				for _, nm := range fld.Names {
+					if o := info.Defs[nm]; o != nil && strings.HasSuffix(o.Type().String(), "http.ResponseWriter") {
+						wParam = o
+					}
+				}
+			}
+			for _, call := range astx.Calls(priv.Body(), true) {
+				usesW := false
+				for _, a := range call.Args {
+					if id, ok := ast.Unparen(a).(*ast.Ident); ok && wParam != nil && astx.Obj(info, id) == wParam {
+						usesW = true
+					}
+				}
+				meth := ""
+				if se, ok := ast.Unparen(call.Fun).(*ast.SelectorExpr); ok {
+					if id, ok := ast.Unparen(se.X).(*ast.Ident); ok && wParam != nil && astx.Obj(info, id) == wParam {
+						usesW, meth = true, se.Sel.Name
+					}
+				}
+				if !usesW {
+					continue
+				}
+				fn := astx.Callee(info, call)
+				ok := meth == "Header" || fn != nil && (isFunc(fn, "net/http", "Error") || privNA != nil && fn == privNA.Obj)
+				r.Check(ok, "C11.H4", priv.Name(), "nothing is served before the password gate", c.P.Pos(call.Pos()), "the response writer goes to http.Error, Header() and DispatchPrivateWithoutAuth only",
+					"DispatchPrivate hands the response writer to "+astx.Str(call.Fun)+" itself: a private route (metrics, status, …) is answered on a path that does not go through the password comparison — e.g. for requests that merely claim to come from localhost")
+			}
+		}
 		// the refusing edge answers 401 and reaches no handler: every http.Error in DispatchPrivate is 401
 		for _, call := range callsIn(priv, func(fn *types.Func, _ *ast.CallExpr) bool { return isFunc(fn, "net/http", "Error") }) {
 			code, ok := astx.ConstInt(info, call.Args[2])
